@@ -318,3 +318,22 @@ Section Readings2.
     cbn in Hsp. now apply (visible_reading h1 t r).
   Qed.
 End Readings2.
+
+(** ** no send on the closed input channel (in Go: a panic) *)
+Lemma push_not_closed c s a s' :
+  InvA s -> InvE s -> step c s a = Some s' ->
+  length (input s) < length (input s') -> closed s = false.
+Proof.
+  intros HA HE H Hl. pose proof (a_closed s HA) as Hc. pose proof (e_hold s HE) as Hh.
+  destruct (closed s) eqn:Ecl; [|reflexivity]. exfalso. specialize (Hc eq_refl).
+  destruct a; open_step H; sst'; rewrite ?app_length in Hl; cbn [length] in Hl; try lia; try congruence.
+  all: try solve [destruct (Hh t) as [_ Hf]; [rewrite Heqp; reflexivity | congruence]].
+  all: try solve [rewrite ?Heql in Hl; cbn [length] in Hl; lia].
+Qed.
+
+Lemma p_no_send_on_closed c sch s a s' :
+  valid c -> exec c sch = Some s -> step c s a = Some s' ->
+  length (input s) < length (input s') -> closed s = false.
+Proof.
+  intros Hv Hr. destruct (inv_reach c sch s Hv Hr) as [HA _ _ _ HE _ _]. now apply push_not_closed.
+Qed.
